@@ -81,6 +81,7 @@ func endToEnd(r *vkit.R) {
 	gw := bed.NewGateway(bed.GatewayOptions{}).Start()
 	defer gw.Close()
 
+	first := true
 	tokens := map[string]string{}
 	tokenFor := func(q *Req) string {
 		k := q.User + "|" + strings.Join(q.Groups, ",")
@@ -93,7 +94,12 @@ func endToEnd(r *vkit.R) {
 	}
 
 	g := r.Rng.Fork("e2e")
-	first := true
+	defer func() {
+		if !first {
+			racingUpdates(r, gw, stubs, eps, tokenFor, r.Rng.Fork("e2e-racing"))
+		}
+	}()
+	first = true
 	var idn int
 	for i := 0; i < n; i++ {
 		np := g.Range(1, K)
@@ -174,6 +180,80 @@ func endToEnd(r *vkit.R) {
 				}
 			}
 		}
+	}
+}
+
+// racing: requests are in flight while exactly one policy-list update is applied; the policy a request is handled under
+// must be the first match of the list before OR after the update ("the cluster's current policy list").
+func racingUpdates(r *vkit.R, gw *bed.Gateway, stubs []*bed.Stub, eps []string, tokenFor func(*Req) string, g *vkit.Rand) {
+	rounds := r.N(15, 300)
+	genPolicies := func() []proxyv1alpha1.DispatchPolicy {
+		np := g.Range(1, len(eps))
+		var ps []proxyv1alpha1.DispatchPolicy
+		for p := 0; p < np; p++ {
+			pol := proxyv1alpha1.DispatchPolicy{Strategy: proxyv1alpha1.RoundRobin, UpstreamSubset: []string{eps[p]}}
+			pol.Rules = append(pol.Rules, genRule(g))
+			ps = append(ps, pol)
+		}
+		return ps
+	}
+	cur := genPolicies()
+	gw.Apply(bed.BuildCluster(bed.ClusterSpec{Name: "c01.e2e", Servers: eps, Policies: cur}))
+	idn := 0
+	for round := 0; round < rounds; round++ {
+		next := genPolicies()
+		type job struct {
+			method, path, id, tok string
+			q                     *Req
+		}
+		var jobs []job
+		for k := 0; k < 24; k++ {
+			m, p, q := httpShape(g)
+			idn++
+			jobs = append(jobs, job{m, p, fmt.Sprintf("c01-race-%d", idn), tokenFor(q), q})
+		}
+		type res struct {
+			status int
+			err    error
+		}
+		out := make([]res, len(jobs))
+		done := make(chan int, len(jobs))
+		for i := range jobs {
+			go func(i int) {
+				j := jobs[i]
+				resp := gw.Do(bed.NewRequest(j.method, "c01.e2e", j.path, j.tok, j.id, bytes.NewReader(nil)))
+				out[i] = res{resp.Status, resp.Err}
+				done <- i
+			}(i)
+		}
+		gw.Apply(bed.BuildCluster(bed.ClusterSpec{Name: "c01.e2e", Servers: eps, Policies: next}))
+		for range jobs {
+			<-done
+		}
+		for i, j := range jobs {
+			if out[i].err != nil {
+				r.Inconclusive("client error in racing phase: " + out[i].err.Error())
+				return
+			}
+			got, hits := -1, 0
+			for si, s := range stubs {
+				if c := s.CountID(j.id); c > 0 {
+					hits += c
+					got = si
+				}
+			}
+			a, b := refPolicies(cur, j.q), refPolicies(next, j.q)
+			r.Eval(1)
+			r.Count("e2e_racing_requests", 1)
+			if a != b {
+				r.Count("e2e_racing_requests_where_lists_disagree", 1)
+			}
+			if hits > 1 || (got != a && got != b) {
+				r.Violation("C01/e2e/racing-update/neither-old-nor-new-list", fmt.Sprintf("request handled under policy %d (hits %d) while the list was being replaced; first match before=%d after=%d: %s %s as %+v",
+					got, hits, a, b, j.method, j.path, *j.q), map[string]interface{}{"before": cur, "after": next, "request": j.q, "stub": got})
+			}
+		}
+		cur = next
 	}
 }
 
